@@ -66,7 +66,10 @@ type HistResult struct {
 
 // ReadOps are the read-API events of the history alphabet (each may or may not miss, depending on state).
 var ReadOps = []string{"Partitions:t", "WritablePartitions:t", "Leader:t:1", "Leader:u:0", "Replicas:t:2", "Controller"}
-var RefreshOps = []string{"R", "R:t", "R:t,u"}
+
+// MoreReadOps are added by the thorough tier.
+var MoreReadOps = []string{"Partitions:u", "WritablePartitions:u", "Leader:t:0", "Leader:t:2", "InSyncReplicas:t:0", "OfflineReplicas:u:0"}
+var RefreshOps = []string{"R", "R:t", "R:u", "R:t,u"}
 
 func parseRead(op string) (Call, bool) {
 	f := strings.Split(op, ":")
